@@ -4,6 +4,8 @@
    predicate P, every hook function, every sequence of datagrams / socket reads / closes / dial faults,
    every eviction oracle (the `ev` carried by each datagram input).  The only hypothesis on the inputs,
    wf_input, is that a client datagram never carries the empty address (ParseUDPMessage rejects it). *)
+(* the C09 names first: where both models use a name (run, step, ...) the session model's wins below *)
+From Hy Require Import model.C09_ACL proof.C09_ACL model.C08_Adapter proof.C08_Adapter.
 From Hy Require Import model.C08_UDPPolicy proof.C08_UDPPolicy.
 From Coq Require Import NArith List.
 Import ListNotations.
@@ -91,3 +93,54 @@ Theorem C08_old_refuted :
     In (OFwd N x) (map (o_out N) (snd (run_old N N.eqb 0%N P hook None ins))).
 Proof. exact old_refuted. Qed.
 Print Assumptions C08_old_refuted.
+
+(* ---- the policy adapter (extras/outbounds): PluggableOutboundAdapter -> resolver stage -> aclEngine -> outbound.
+   The hypothesis of the session theorems above - the dial (UDP) vets a destination with the very policy CheckUDP
+   applies to the later ones - for this pipeline: both entry points reach the same outbound with the same request
+   (host, port and the resolve info the resolver stage stored, rewritten alike by a hijack rule), for every rule set,
+   default outbound, resolver and destination; hence the two verdicts are equal for any outbound behaviour. *)
+Theorem C08_adapter_check_walks_same_acl :
+  forall (ip_str : ip -> str) (rs : list rule) (dflt : N) (resolve : str -> option (ip * ip)) (h : str) (p : N),
+  adapter_check_udp ip_str rs dflt resolve h p = adapter_udp ip_str rs dflt resolve h p.
+Proof. exact adapter_same_walk. Qed.
+Print Assumptions C08_adapter_check_walks_same_acl.
+
+Theorem C08_adapter_same_policy :
+  forall (ip_str : ip -> str) (rs : list rule) (dflt : N) (resolve : str -> option (ip * ip))
+         (accepts : N -> reqaddr -> bool) (h : str) (p : N),
+  check_allows ip_str rs dflt resolve accepts h p = dial_allows ip_str rs dflt resolve accepts h p.
+Proof. exact adapter_same_policy. Qed.
+Print Assumptions C08_adapter_same_policy.
+
+(* What that policy is: first match over the rules on the host NAME TOGETHER WITH THE ADDRESSES THE RESOLVER STAGE
+   STORED (seen_host), UDP, the destination port; no match = the default outbound with the request untouched. *)
+Theorem C08_adapter_check_default :
+  forall ip_str rs dflt resolve h p,
+  Forall (fun x => rule_match x (norm_host (seen_host resolve h)) ProtocolUDP p = false) rs ->
+  adapter_check_udp ip_str rs dflt resolve h p = (dflt, mkReq h p (resolve h)).
+Proof. exact adapter_check_default. Qed.
+Print Assumptions C08_adapter_check_default.
+
+Theorem C08_adapter_check_first_match :
+  forall ip_str rs dflt resolve h p pre r post,
+  rs = pre ++ r :: post ->
+  Forall (fun x => rule_match x (norm_host (seen_host resolve h)) ProtocolUDP p = false) pre ->
+  rule_match r (norm_host (seen_host resolve h)) ProtocolUDP p = true ->
+  fst (adapter_check_udp ip_str rs dflt resolve h p) = r_ob r /\
+  (r_hijack r = [] -> snd (adapter_check_udp ip_str rs dflt resolve h p) = mkReq h p (resolve h)).
+Proof. exact adapter_check_first. Qed.
+Print Assumptions C08_adapter_check_first_match.
+
+(* Non-vacuity: reject(10.0.0.0/8); ob1(all) and a name that resolves to 10.1.2.3 - refused by both entry points. *)
+Theorem C08_adapter_example_resolved_name_refused :
+  fst (adapter_check_udp ip_str_hex ex_rules 1 ex_resolve ex_name 53) = ex_REJECT /\
+  fst (adapter_udp ip_str_hex ex_rules 1 ex_resolve ex_name 53) = ex_REJECT.
+Proof. exact example_resolved_name_refused. Qed.
+Print Assumptions C08_adapter_example_resolved_name_refused.
+
+(* A per-datagram check that evaluates the rules on Host and Port only is NOT the dial-time policy. *)
+Theorem C08_adapter_hostport_only_refuted :
+  exists rs dflt resolve h p,
+    fst (adapter_check_udp_hostport ip_str_hex rs dflt h p) <> fst (adapter_udp ip_str_hex rs dflt resolve h p).
+Proof. exact hostport_only_refuted. Qed.
+Print Assumptions C08_adapter_hostport_only_refuted.
